@@ -30,21 +30,24 @@ def wsum (l : List (K × K)) : K := (l.map (fun b => b.1 * b.2)).sum
 
 theorem centroid_gt {v1 f1 v2 f2 : K} (hv : v1 < v2) (h1 : 0 < f1) (h2 : 0 < f2) :
     v1 < centroid v1 f1 v2 f2 := by
-  unfold centroid
+  unfold centroid Gen.DistogramExpr.trimCentre
   rw [lt_div_iff₀ (by linarith)]
   nlinarith
 
 theorem centroid_lt {v1 f1 v2 f2 : K} (hv : v1 < v2) (h1 : 0 < f1) (h2 : 0 < f2) :
     centroid v1 f1 v2 f2 < v2 := by
-  unfold centroid
+  unfold centroid Gen.DistogramExpr.trimCentre
   rw [div_lt_iff₀ (by linarith)]
   nlinarith
 
 theorem centroid_mul {v1 f1 v2 f2 : K} (h1 : 0 < f1) (h2 : 0 < f2) :
     centroid v1 f1 v2 f2 * (f1 + f2) = v1 * f1 + v2 * f2 := by
-  unfold centroid
+  unfold centroid Gen.DistogramExpr.trimCentre
   have : f1 + f2 ≠ 0 := by linarith
   field_simp
+
+/-- The source's merged count is the sum of both counts. -/
+@[simp] theorem trimCount_eq (v1 f1 v2 f2 : K) : Gen.DistogramExpr.trimCount v1 f1 v2 f2 = f1 + f2 := rfl
 
 /-! ## merging one adjacent pair -/
 
@@ -122,7 +125,7 @@ theorem mergeAt_mass (i : Nat) : ∀ (l : List (K × K)), mass (mergeAt i l) = m
     match l with
     | [] => rfl
     | [a] => rfl
-    | (v1, f1) :: (v2, f2) :: rest => simp only [mergeAt, mass, List.map_cons, List.sum_cons]; ring
+    | (v1, f1) :: (v2, f2) :: rest => simp only [mergeAt, mass, List.map_cons, List.sum_cons, trimCount_eq]; ring
   | succ n ih =>
     intro l
     match l with
@@ -142,7 +145,7 @@ theorem mergeAt_wsum (i : Nat) : ∀ (l : List (K × K)), Pos l → wsum (mergeA
     | (v1, f1) :: (v2, f2) :: rest, hp =>
       have h1 : 0 < f1 := hp (v1, f1) (by simp)
       have h2 : 0 < f2 := hp (v2, f2) (by simp)
-      simp only [mergeAt, wsum, List.map_cons, List.sum_cons, centroid_mul h1 h2]; ring
+      simp only [mergeAt, wsum, List.map_cons, List.sum_cons, trimCount_eq, centroid_mul h1 h2]; ring
   | succ n ih =>
     intro l hp
     match l, hp with
@@ -192,6 +195,29 @@ theorem argminFirst_lt (g : List K) (h : g ≠ []) : argminFirst g < g.length :=
   | x :: xs, _ =>
     have := argminFrom_lt xs 1 0 x (by omega)
     simp only [argminFirst, List.length_cons]; omega
+
+/-- `load`'s cached differences (the source's expression, position by position) are the adjacent gaps. -/
+theorem loadDiffsFrom_eq_gaps : ∀ (prev : K) (l : List (K × K)), loadDiffsFrom prev l = gaps l
+  | _, [] => rfl
+  | _, [_] => rfl
+  | prev, a :: b :: rest => by
+    simp only [loadDiffsFrom, gaps, Gen.DistogramExpr.loadDiff, loadDiffsFrom_eq_gaps a.1 (b :: rest)]
+
+theorem loadDiffs_eq_gaps (l : List (K × K)) : loadDiffs l = gaps l := by
+  unfold loadDiffs
+  cases h : l.getLast? with
+  | none =>
+    have : l = [] := by simpa using h
+    subst this; rfl
+  | some bl => exact loadDiffsFrom_eq_gaps bl.1 l
+
+/-- `bulkload`'s inserted value lies between the two edges it averages. -/
+theorem bulkMid_between {a b : K} (h : a ≤ b) :
+    a ≤ Gen.DistogramExpr.bulkMid a b ∧ Gen.DistogramExpr.bulkMid a b ≤ b := by
+  unfold Gen.DistogramExpr.bulkMid
+  constructor
+  · rw [le_div_iff₀ (by norm_num)]; linarith
+  · rw [div_le_iff₀ (by norm_num)]; linarith
 
 /-! ## trimming -/
 
